@@ -1622,6 +1622,42 @@ func wireKeys(d *spec.Design, raw json.RawMessage, u *spec.UserType, view string
 // wireKeysOf applies wireKeys to the body of a result-type method, element by element for a collection.
 func wireKeysOf(d *spec.Design, m *spec.Method, raw json.RawMessage, u *spec.UserType, view string, sent any) []string {
 	if !m.Collection {
+		if hs := m.Responses[0].Headers; len(hs) > 0 {
+			// attributes this method carries in response headers are no part of its body: judged against a copy of
+			// the type (and of the value) without them; the headers themselves are judged by the caller
+			cu := *u
+			ca := *u.Attr
+			ct := *u.Attr.Type
+			ct.Fields = nil
+			for _, f := range u.Attr.Type.Fields {
+				if _, ok := hs[f.Name]; !ok {
+					ct.Fields = append(ct.Fields, f)
+				}
+			}
+			ca.Type, cu.Attr = &ct, &ca
+			cu.Views = nil
+			for _, v := range u.Views {
+				cv := *v
+				cv.Fields = nil
+				for _, fn := range v.Fields {
+					if _, ok := hs[fn]; !ok {
+						cv.Fields = append(cv.Fields, fn)
+					}
+				}
+				cu.Views = append(cu.Views, &cv)
+			}
+			so, _ := sent.(map[string]any)
+			cs := map[string]any{}
+			for k, v := range so {
+				if _, ok := hs[k]; !ok {
+					cs[k] = v
+				}
+			}
+			if len(bytes.TrimSpace(raw)) == 0 {
+				raw = json.RawMessage("{}")
+			}
+			return wireKeys(d, raw, &cu, view, cs, "body")
+		}
 		return wireKeys(d, raw, u, view, sent, "body")
 	}
 	var raws []json.RawMessage
@@ -1698,6 +1734,23 @@ func judgeView(o *engine.Outcome, w *world, d *spec.Design, s *spec.Service, m *
 		}
 		o.Violate("view_wire", "view_wire:"+sig, "%s: view %q: %s\n  full value %s\n  body %q", where, rendered, e, gen.Show(sent), clipS(string(ex.RespBody)))
 		break
+	}
+	for attr, hn := range m.Responses[0].Headers {
+		so, _ := sent.(map[string]any)
+		inView := false
+		if vw := gen.ViewOf(u, rendered); vw != nil {
+			for _, fn := range vw.Fields {
+				inView = inView || fn == attr
+			}
+		}
+		hv, present := ex.RespHeader[http.CanonicalHeaderKey(hn)]
+		o.Features["c08_header_mapped_attribute_checked"]++
+		switch {
+		case inView && so[attr] != nil && (!present || len(hv) != 1 || !textEq(d.Resolve(u.Attr.Type.Field(attr).Type).Kind, hv[0], so[attr])):
+			o.Violate("view_wire", "view_wire:header:"+sig, "%s: view %q contains %q (=%s), which this method carries in header %s: the header is %q", where, rendered, attr, gen.Show(so[attr]), hn, hv)
+		case !inView && present && len(hv) > 0 && hv[0] != "":
+			o.Violate("view_wire", "view_wire:header-outside-view:"+sig, "%s: view %q does not contain %q, yet its header %s went out as %q", where, rendered, attr, hn, hv)
+		}
 	}
 	// ---- what the client rebuilt
 	if rewritten {
